@@ -1,4 +1,5 @@
 import Gallia.Proofs.Lemmas.Loss
+import Gallia.Proofs.Lemmas.HsfzSys
 import Gallia.Gen.C08Loss
 import Gallia.Gen.C06Doip
 import Gallia.Gen.C07Hsfz
@@ -376,6 +377,57 @@ theorem recover (P : Proto Q) (sc : Scn) (rp : Reply) (cls : Bytes → Client.Ev
     rw [attempts, dif_neg (by omega), hstep1]
   rw [hrun]
   simp [hcon, hcur, hsent]
+
+/-! ### the death / end-of-stream side of the C06 and C07 connection models -/
+
+/-- C06 model (`Doip.block`): when the reader task dies (malformed frame, EOF, reset) while a consumer is blocked on the
+    queue and the awaited frame has not arrived, the consumer ends with a connection error at that very moment - not
+    at its deadline, and also when it has no deadline worth speaking of -/
+theorem doip_death_wakes (c : Doip.Cfg) (p : Doip.Frame → Bool) (d : Nat) (s : Doip.St) (e : Doip.Ev)
+    (es : List Doip.Ev) (ht : e.t < d) (hdied : e.died = true)
+    (hq : DoipFifo.findSplit p (s.queue ++ e.frames) = none) :
+    (Doip.block c p d s (e :: es)).1 = .conn ∧ (Doip.block c p d s (e :: es)).2.1.now = max s.now e.t ∧
+    (Doip.block c p d s (e :: es)).2.1.closed = true := by
+  have h1 : ¬ d ≤ e.t := by omega
+  have hq' : DoipFifo.findSplit p (s.absorb c e).queue = none := hq
+  simp [Doip.block, h1, hdied, Doip.St.absorb, hq]
+
+/-- C07 model (`Hsfz.execOp .eof`): when the stream ends while a read is blocked on the queue, the read ends with
+    `BrokenPipeError` at that moment, whatever its timeout - also without one -/
+theorem hsfz_eof_wakes (cfg : Hsfz.Cfg) (yields : Hsfz.Wire → Bool) (s : Hsfz.Sys) (sk : List Hsfz.Item)
+    (c : Option Nat) (hcl : s.client = .reading sk c) :
+    (Hsfz.execOp cfg yields s .eof).client = .idle ∧
+    (Hsfz.execOp cfg yields s .eof).done = s.done ++ [(s.now, .peerClosed)] ∧
+    (Hsfz.execOp cfg yields s .eof).closed = s.closed := by
+  simp [Hsfz.execOp, Hsfz.wake, hcl, Hsfz.Sys.finish]
+
+/-- … and a write waiting for its acknowledgement likewise, keeping the frames it had skipped -/
+theorem hsfz_eof_wakes_ack_wait (cfg : Hsfz.Cfg) (yields : Hsfz.Wire → Bool) (s : Hsfz.Sys) (prev : Bytes)
+    (sk : List Hsfz.Item) (a : Nat) (c : Option Nat) (hcl : s.client = .ackWait prev sk a c) :
+    (Hsfz.execOp cfg yields s .eof).client = .idle ∧
+    (Hsfz.execOp cfg yields s .eof).done = s.done ++ [(s.now, .peerClosed)] ∧
+    (Hsfz.execOp cfg yields s .eof).queue = sk ++ s.queue := by
+  simp [Hsfz.execOp, Hsfz.wake, hcl, Hsfz.Sys.finish]
+
+/-- after the end of the stream no HSFZ operation is left blocked: a read or write issued then ends at once
+    (data / acknowledgement still queued, or `BrokenPipeError`) -/
+theorem hsfz_after_eof_never_blocked (cfg : Hsfz.Cfg) (yields : Hsfz.Wire → Bool) (s : Hsfz.Sys)
+    (hi : s.client = .idle) (he : s.eof = true) (t : Option Nat) (data : Bytes) :
+    (Hsfz.execOp cfg yields s (.read t)).client = .idle ∧ (Hsfz.execOp cfg yields s (.write data t)).client = .idle := by
+  have hw : ∀ u : Hsfz.Sys, u.eof = true → (Hsfz.wake u).client = .idle := by
+    intro u hu
+    unfold Hsfz.wake
+    simp only [hu, if_true]
+    cases hc : u.client <;> simp [Hsfz.Sys.finish, hc]
+  constructor
+  · simp only [Hsfz.execOp, hi, Hsfz.isIdle, Bool.not_true, Bool.false_eq_true, if_false]
+    split
+    · simp [hi]
+    · exact hw _ (by rw [Hsfz.clientRun_eof cfg]; exact he)
+  · simp only [Hsfz.execOp, hi, Hsfz.isIdle, Bool.not_true, Bool.false_eq_true, if_false]
+    split
+    · simp [hi]
+    · exact hw _ (by rw [Hsfz.clientRun_eof cfg]; exact he)
 
 /-! ### non-vacuity: concrete scenarios (tcp-lines; the peer's reply `62 f1 90 00` is the line `3632663139303030\n`) -/
 
